@@ -2,6 +2,7 @@ package main
 
 import (
 	"fmt"
+	"math"
 
 	"github.com/creachadair/mds/queue"
 )
@@ -31,6 +32,9 @@ func (r *c07) Exec(op []string) string {
 			r.q = queue.New[int]()
 		case "size":
 			r.q = queue.NewSize[int](atoi(op[2]))
+			if n := atoi(op[2]); n >= 10 && n < 300 {
+				r.st.Note("newsize-10..299")
+			}
 		}
 		return r.obs("-")
 	case "add", "push":
@@ -38,6 +42,9 @@ func (r *c07) Exec(op []string) string {
 		if n == cp {
 			if head > 0 {
 				r.st.Note(op[0] + "-rotate-grow")
+				if cp > 32 {
+					r.st.Note(op[0] + "-rotate-grow-cap>32")
+				}
 			} else if cp > 0 {
 				r.st.Note(op[0] + "-grow")
 			}
@@ -74,6 +81,9 @@ func (r *c07) Exec(op []string) string {
 		if k < 0 {
 			r.st.Note("peek-neg")
 		}
+		if n := r.q.Len(); k > n+1 || k < -n-2 {
+			r.st.Note("peek-far-out-of-range")
+		}
 		v, ok := r.q.Peek(k)
 		return r.obs(fmtPop(v, ok))
 	case "each":
@@ -92,15 +102,20 @@ func (r *c07) Exec(op []string) string {
 // exactly full, wrapped deep into the buffer, then regrown from either end — size-dependent paths that the
 // many small histories cannot reach.
 func genC07large(g *G, next *int) {
-	sizes := []int{300, 512, 700}
+	// (second audit §1 C07: also the medium sizes 10..299, and the first operation on the exactly full, rotated
+	// buffer is a Push in every other NewSize case — the grow-while-rotated path of Push at every capacity)
+	sizes := []int{300, 512, 700, 12, 33, 64, 100, 128, 10 + g.Intn(120), 10 + g.Intn(120), 130 + g.Intn(170)}
 	if g.Thorough() {
 		sizes = append(sizes, 1024, 2048, 4096)
+		for j := 0; j < 40; j++ {
+			sizes = append(sizes, 10+g.Intn(290))
+		}
 	}
 	for i, n := range sizes {
 		if !g.Mine(i) {
 			continue
 		}
-		for _, start := range []string{fmt.Sprintf("reset size %d", n), "reset zero"} {
+		for v, start := range []string{fmt.Sprintf("reset size %d", n), "reset zero", fmt.Sprintf("reset size %d", n)} {
 			ops := []string{start}
 			add := func(k int) {
 				for j := 0; j < k; j++ {
@@ -115,7 +130,7 @@ func genC07large(g *G, next *int) {
 			}
 			add(shift)                // (for NewSize(n): exactly full and wrapped)
 			for j := 0; j < 40; j++ { // keep adding until the buffer had to regrow, from both ends
-				if j%3 == 2 {
+				if (j+v)%3 == 2 { // v = 2: the very first operation on the full buffer is a Push
 					ops = append(ops, fmt.Sprintf("push %d", *next))
 				} else {
 					ops = append(ops, fmt.Sprintf("add %d", *next))
@@ -141,7 +156,11 @@ func genC07(g *G) {
 		case 1:
 			ops = append(ops, "reset new")
 		default:
-			ops = append(ops, fmt.Sprintf("reset size %d", g.Intn(10)))
+			n := g.Intn(10)
+			if g.Chance(1, 6) {
+				n = 10 + g.Intn(55)
+			}
+			ops = append(ops, fmt.Sprintf("reset size %d", n))
 		}
 		n := 0 // shadow length, to steer the generator only
 		nops := 5 + g.Intn(maxOps)
@@ -189,6 +208,12 @@ func genC07(g *G) {
 		// every peek offset around the valid range at the end
 		for k := -n - 2; k <= n+1; k++ {
 			ops = append(ops, fmt.Sprintf("peek %d", k))
+		}
+		// … and far outside it (Peek adds the length to a negative offset: no wrap-around may make these valid)
+		if c%8 == 0 {
+			for _, k := range []int{n + 10, -n - 10, 1000000, -1000000, 1 << 32, -(1 << 32), math.MaxInt64, math.MinInt64, math.MinInt64 + n, math.MaxInt64 - n} {
+				ops = append(ops, fmt.Sprintf("peek %d", k))
+			}
 		}
 		g.Case(ops)
 	}
